@@ -211,4 +211,5 @@ def run(facts, rep, ctx):
     """rules added after the fifth seeding round (rules/round6.py)"""
     _run_before_round6(facts, rep, ctx)
     from . import round6
+    round6.cf2(facts, rep, ['pattern_matching::myers::', 'pattern_matching::ukkonen::', 'alignment::distance::'], 150)
     round6.dl1(facts, rep)
